@@ -43,13 +43,13 @@ def plan(tier: str, seed: int) -> list[dict]:
     for i in range(3 if q else 6):
         specs.append({"name": f"nonce-{i}", "fn": "shard_nonce", "histories": 500 if q else 12000, "_budget_s": 60 if q else 900, "_timeout_s": 500 if q else 2400})
     for i in range(2 if q else 4):
-        specs.append({"name": f"signer-{i}", "fn": "shard_signer", "histories": 500 if q else 12000, "_budget_s": 80 if q else 900, "_timeout_s": 500 if q else 2400})
+        specs.append({"name": f"signer-{i}", "fn": "shard_signer", "histories": 500 if q else 12000, "_budget_s": 150 if q else 900, "_timeout_s": 500 if q else 2400})
     for i in range(3 if q else 6):
-        specs.append({"name": f"wallet-{i}", "fn": "shard_wallet", "histories": 250 if q else 5000, "_budget_s": 80 if q else 900, "_timeout_s": 500 if q else 2400})
-    specs.append({"name": "independence", "fn": "shard_independence", "rounds": 6 if q else 80, "_budget_s": 80 if q else 900, "_timeout_s": 500 if q else 2400})
+        specs.append({"name": f"wallet-{i}", "fn": "shard_wallet", "histories": 250 if q else 5000, "_budget_s": 150 if q else 900, "_timeout_s": 500 if q else 2400})
+    specs.append({"name": "independence", "fn": "shard_independence", "rounds": 6 if q else 80, "_budget_s": 150 if q else 900, "_timeout_s": 500 if q else 2400})
     for i in range(6 if q else 10):
         specs.append({"name": f"threads-{i}", "fn": "shard_threads", "schedules": 5 if q else 200, "threads": 4 + i % 5,
-                      "_budget_s": 90 if q else 1000, "_timeout_s": 600 if q else 2400})
+                      "_budget_s": 150 if q else 1000, "_timeout_s": 600 if q else 2400})
     return specs
 
 
